@@ -998,6 +998,8 @@ class CallMixin:
 
     def apply_contract(self, node, st, c, args, kw):
         w = self.world
+        self.used_contracts = getattr(self, "used_contracts", set())
+        self.used_contracts.add(c.target)
         formals = list(c.params.keys())
         env = {"self": self.self_val}
         for fname, a in zip(formals, args):
@@ -1047,6 +1049,13 @@ class CallMixin:
         for gname, gsort in c.ghosts.items():       # the callee's ghost outcome is unknown to the caller
             env2["final_" + gname] = fresh(gsort, "final_" + gname)
             env[("final_" + gname)] = env2["final_" + gname]
+        for lname in getattr(c, "expose", []):      # likewise the final value of an exposed local (its sort is declared with c.local)
+            lsort = c.locals.get(lname)
+            if lsort is None:
+                raise Unsupported(node, f"exposed local {lname} of {c.short} has no declared sort (c.local)")
+            env2["final_" + lname] = fresh(lsort, "final_" + lname)
+            self.assume_wf(post, env2["final_" + lname])
+            env[("final_" + lname)] = env2["final_" + lname]
         post_st = St(env2, post.heap, [], pre_st, post.ghost)
         for lab, e in c.ensures:
             if lab.startswith("rt:"):
@@ -1062,7 +1071,7 @@ class CallMixin:
                 sx.assume(self.spec_bool(r.when, pre_st))
             x_st = St(dict(env), sx.heap, [], pre_st, sx.ghost)
             for e in r.ensures:
-                e = e[6:] if e.startswith("ghost:") else e
+                e = e[6:] if e.startswith("ghost:") else (e[7:] if e.startswith("assume:") else e)
                 sx.assume(self.spec_bool(e, x_st))
             if self.feasible(sx):
                 self.raised.append(Outcome("raise", sx, ExcVal(r.exc)))
